@@ -1,16 +1,16 @@
 CONSTANTS
-  Streams = {0}
-  Paired = FALSE
-  MaxOps = 6
-  MaxWire = 3
+  Streams = {0, 1}
+  Paired = TRUE
+  MaxOps = 4
+  MaxWire = 2
   BarrierBug = FALSE
   ResetLoose = FALSE
   LoseFlagInClosing = FALSE
   LocalOps = {"read", "read1", "write", "bigwrite", "flush", "close", "close_read", "drop"}
   EnvOps = {"eof", "block", "unblock"}
   Frames = {"data", "big", "fin", "stop", "reset"}
-INIT Init
-NEXT Next
+INIT GInit
+NEXT GNext
+VIEW GView
 CONSTRAINT WireBound
-INVARIANT NoBadTransition ReadOnlyWhileOpen WriteOnlyWhileOpen NoDataAfterFin FlagsSentOnce AfterReset
-PROPERTY ResetIsFinal
+ACTION_CONSTRAINT EmitEdge
